@@ -93,10 +93,10 @@ async def watch_known_dirs(workflow: Workflow, reporter: ReporterClient):
 
 async def rescan_env_vars(workflow: Workflow, reporter: ReporterClient):
     """Check for changes in environment variables used by steps."""
-    sql = (
-        "SELECT node, label, name, value FROM env_var JOIN node ON env_var.node = node.i "
-        "WHERE NOT node.detached"
-    )
+    # Detached steps are included for the same reason as in
+    # `Workflow.mark_consuming_steps_pending`: a detached step can be recycled with its state
+    # and hash intact, so it must not miss a change of a variable it depends on.
+    sql = "SELECT node, label, name, value FROM env_var JOIN node ON env_var.node = node.i"
     async with workflow.db:
         env_var_uses = workflow.db.execute(sql).fetchall()
 
